@@ -954,4 +954,26 @@ def dsnParentBy (delim s : Str) : Except Err Str :=
     if es.length ≥ 2 then (match es[es.length - 2]? with | some e => .ok e | none => .error .indexError)
     else .error .indexError)
 
+/-! ### `Resolver.load(mapping)` (`syntax/ast/resolver.py:27-41`), `accepts`, `unregister` -/
+
+namespace Table
+
+/-- the `register` calls of `Resolver.load`, in order: for every `(ctor, symbols)` of `mapping.symbols`, for every symbol -/
+def registrations (symbols : List (ClassDef × List Str)) : List (Str × ClassDef) :=
+  symbols.flatMap (fun cs => cs.2.map (fun sym => (sym, cs.1)))
+
+def registerAll (t : Table) (regs : List (Str × ClassDef)) : Table := regs.foldl (fun t r => t.register r.1 r.2) t
+
+/-- `Resolver.load(SymbolMapping(symbols, fallback))` -/
+def load (symbols : List (ClassDef × List Str)) (fallback : Option ClassDef) : Table :=
+  { registerAll {} (registrations symbols) with fallback := fallback }
+
+/-- `Resolver.accepts` -/
+def accepts (t : Table) : List Str := t.ctors.map (·.1)
+
+/-- `Resolver.unregister(symbol)` -/
+def unregister (t : Table) (sym : Str) : Table := { t with ctors := t.ctors.filter (fun kv => !(kv.1 == sym)) }
+
+end Table
+
 end Tranp.AstPath
